@@ -756,6 +756,7 @@ func ghost_Build_noFallible(injector *Injector) { gNoFallible = !injector.IsRetu
 //
 //kvc:ghost (*Graph).Build before "err = g.injectContextArg(injector, metaData, varPool)"
 func ghost_Build_argsReady(g *Graph, injector *Injector) {
+	vs.Assert("hint_statements_ready", statementsReady(injector)) // buildStmts/post.ready_pools_give_ready_statements
 	vs.Assert("hint_argument_nodes_used", vs.Forall(len(topoOrder(g)), func(j int) bool {
 		return vs.Implies(topoOrder(g)[j].providerSpec == nil, len(g.edges[topoOrder(g)[j]]) >= 1 || topoOrder(g)[j] == g.returnValue.node)
 	}))
@@ -787,7 +788,9 @@ func ghost_Build_afterCtx(g *Graph, injector *Injector, metaData *MetaData) {
 	vs.Assert("hint_vars_import_tables", vs.Forall(len(injector.Vars), func(i int) bool { return importsNonNil(injector.Vars[i].ReferencedImports) }))
 	vs.Assert("hint_vars_channels_referenced", vs.Forall(len(injector.Vars), func(i int) bool { return !injector.Vars[i].withChannel || injector.Vars[i].refCounter > 0 }))
 	vs.Assert("hint_vars_private_tables", vs.Forall(len(injector.Vars), func(i int) bool { return !vs.SameMap(injector.Vars[i].ReferencedImports, metaData.Imports) }))
-	vs.Assert("hint_statements_still_ready", vs.Forall(len(injector.Stmts), func(k int) bool { return topStmtReady(injector.Stmts[k]) }))
+	// follows from injectContextArg/post.statements_stay_ready (proved there, where the frame is small; re-deriving it here
+	// was proved by a single back end in 0.3 s to more than 10 s depending on the run)
+	vs.Assert("hint_statements_still_ready", statementsReady(injector))
 	vs.Assert("hint_values_shape", vs.Forall(len(topoOrder(g)), func(j int) bool {
 		return len(topoOrder(g)[j].returnValues) == returnCount(topoOrder(g)[j]) && valuesDistinct(topoOrder(g)[j]) &&
 			vs.Forall(len(topoOrder(g)[j].returnValues), func(k int) bool {
